@@ -72,7 +72,7 @@ def w_grating(ctx, rng, i):
     fs = float(rng.choice([2e10, 4e10, 8e10, 1.6e11, 4e11]))
     with core.quiet():
         T.gv(sps=int(rng.choice([4, 8, 16])), fs=fs, wavelength=float(rng.choice([1550e-9, 1310e-9, 1560.5e-9])))
-    n = int(rng.choice([256, 512, 1024] if ctx.tier == "quick" else [256, 512, 1024, 2048, 4096]))
+    n = int(rng.choice([256, 512, 1024, 250, 509, 257] if ctx.tier == "quick" else [256, 512, 1024, 2048, 4096, 250, 509, 257, 1001]))
     n_pol = int(rng.integers(1, 3))
     x = make_input(rng, n, n_pol)
     kL = float(rng.uniform(0.1, 8)) if i % 10 else float([0.1, 8.0][i // 10 % 2])
